@@ -3,11 +3,12 @@
 import glob, json, os
 V = os.path.dirname(os.path.dirname(os.path.abspath(__file__)))
 m = json.load(open(os.path.join(V, "MANIFEST.json")))
+registered = set(open(os.path.join(V, "lib", "registered.txt")).read().split())
 checks = []
 for p in sorted(glob.glob(os.path.join(V, "lib", "props", "C*.manifest.json"))):
     e = json.load(open(p))
     pid = e["property_id"]
-    if not os.path.exists(os.path.join(V, "lib", "props", pid + ".py")):
+    if not os.path.exists(os.path.join(V, "lib", "props", pid + ".py")) or pid not in registered:
         continue
     checks.append(e)
 m["checks"] = checks
